@@ -2,7 +2,7 @@
 -- (DECISION theorems) and why an invalid execution cannot produce the polynomial the protocol asks for.
 --
 -- What is proved (for all inputs, no size bound):
---   (i)   `checkMain_iff`: the executable reference validity check (tied to `genair::is_valid`, the oracle of the
+--   (i)   `checkMain_iff`, `valid_of_exempt_corruption`: the executable reference validity check (tied to `genair::is_valid`, the oracle of the
 --         adversarial harness, on every `valid` op line) decides the predicate `Valid`: shape, every asserted
 --         cell, every transition constraint on EXACTLY the steps `0 .. n - exemptions - 1`;
 --   (ii)  `transition_violation_not_divisible`, `assertion_violation_not_divisible`, `exempt_step_not_enforced`:
@@ -89,6 +89,46 @@ example : checkMain exAir 97 [[4, 6, 7, 8, 9, 10, 11, 12]] [5] = some ⟨.assert
 example : ¬ Valid exAir 97 [[5, 6, 7, 8, 9, 10, 12, 55]] [5] := fun h => by
   have := (checkMain_iff _ _ _ _).mpr h
   revert this; decide
+
+/-- **a corruption that touches only exempt transitions and no asserted cell leaves the trace valid**: if
+    `cols'` has the shape of `cols`, agrees with it on every row `0 .. n - exemptions` (the rows the enforced
+    frames `(s, s + 1)`, `s < n - exemptions`, read) and on every asserted cell, then `cols'` is valid whenever
+    `cols` is — whatever the other cells contain -/
+theorem valid_of_exempt_corruption (A : Air) (M : Nat) (cols cols' : List (List Nat)) (pubs : List Nat)
+    (h : Valid A M cols pubs) (hlen : cols'.length = cols.length) (hcols : ∀ c ∈ cols', c.length = A.n)
+    (hrows : ∀ j s, s ≤ A.n - A.exemptions → cellAt cols j s = cellAt cols' j s)
+    (hass : ∀ (k : Nat) (a : AssertDesc) (i s : Nat), A.assertions[k]? = some a → (a.steps A.n)[i]? = some s →
+      cellAt cols a.column s = cellAt cols' a.column s) : Valid A M cols' pubs := by
+  obtain ⟨h1, _, h3, h4, h5⟩ := h
+  refine ⟨by rw [hlen, h1], hcols, h3, ?_, ?_⟩
+  · intro k a hk i hi
+    rw [← assertionHolds_congr A cols cols' pubs k i (fun a' s' ha' hs' => hass k a' i s' ha' hs')]
+    exact h4 k a hk i hi
+  · intro s hs k hk
+    rw [← transitionHolds_congr A M cols cols' s k hlen.symm (fun j => hrows j s (by omega))
+      (fun j => hrows j (s + 1) (by omega))]
+    exact h5 s hs k hk
+
+-- the junk-tail example above is an instance: rows 0..6 and the asserted cell agree, only row 7 differs
+example : Valid exAir 97 [[5, 6, 7, 8, 9, 10, 11, 55]] [5] :=
+  valid_of_exempt_corruption exAir 97 [[5, 6, 7, 8, 9, 10, 11, 12]] _ [5] ((checkMain_iff _ _ _ _).mp (by decide))
+    rfl (by decide)
+    (by
+      intro j s hs
+      have hs' : s ≤ 6 := hs
+      match j, s, hs' with
+      | 0, 0, _ | 0, 1, _ | 0, 2, _ | 0, 3, _ | 0, 4, _ | 0, 5, _ | 0, 6, _ => rfl
+      | j + 1, s, _ => simp [cellAt])
+    (by
+      intro k a i s hk hi
+      match k, hk with
+      | 0, hk =>
+        simp only [exAir, List.getElem?_cons_zero, Option.some.injEq] at hk
+        subst hk
+        match i, hi with
+        | 0, hi => simp only [AssertDesc.steps, List.getElem?_cons_zero, Option.some.injEq] at hi; subst hi; rfl
+        | i + 1, hi => simp [AssertDesc.steps] at hi
+      | k + 1, hk => simp [exAir] at hk)
 
 /-! ## (ii) a violated constraint makes the numerator indivisible by the divisor
 
